@@ -236,6 +236,14 @@ class Path:
                                     self.path_id(), expect_sat=True))
 
 
+def _select(terms, k):
+    """terms[k] for a concrete list of terms and a symbolic index"""
+    out = to_term(terms[-1])
+    for i in range(len(terms) - 2, -1, -1):
+        out = z3.If(k == i, to_term(terms[i]), out)
+    return out
+
+
 def _has_quant(e):
     seen = set()
     stack = [e]
@@ -1832,7 +1840,21 @@ class Interp:
     def ex_SetComp(self, e, env):
         r = self.comprehension(e, env, "list")
         if isinstance(r, list):
-            return set(r)
+            if not any(is_z3(x) for x in r):
+                return set(r)
+            # symbolic integers: a Python set of TERMS would count syntactically different but equal values twice;
+            # use the cardinality abstraction (exact for len() compared with 0/1)
+            from .lib_builtin import SymSet
+            ints = [x for x in r if is_z3(x) or (isinstance(x, int) and not isinstance(x, bool))]
+            others = set(x for x in r if not (is_z3(x) or (isinstance(x, int) and not isinstance(x, bool))))
+            if any(not (isinstance(x, z3.ArithRef) and x.is_int()) for x in ints if is_z3(x)):
+                raise Unsupported("set comprehension over symbolic non-integers")
+            ss = SymSet.empty()
+            ss.update(self, Arr(len(ints), lambda k, ints=ints: _select(ints, k), "int"))
+            if others:
+                # non-integer members (e.g. None) are distinct from every integer
+                ss = SymSet(ss.card + len(others), ss.elem)
+            return ss
         raise Unsupported("symbolic set comprehension")
 
     def ex_DictComp(self, e, env):
